@@ -178,8 +178,9 @@ static std::string gen_tunnel(uint64_t seed, uint64_t idx, bool thorough) {
     // coarse clock sources are legal: CLOCK_REALTIME may tick in us or ms steps (several frames then share one timestamp)
     uint64_t clkgran = r.chance(0.25) ? (uint64_t[]){1000, 1000000, 4000000, 10000000}[r.below(4)] : 1;
     int stackfill = r.chance(0.6) ? 0xA5 : (int[]){0x00, 0x00, 0xFF, 0x01}[r.below(4)];
-    o.line(strf("cfg scen=tunnel longnames=%d argorder=%d stackfill=%d udp=%d fd=%d tscf=%d count=%d o0=%d ethpad=%d read0=%.2f clkgran=%llu sched=%s lat=%llu:%llu cost=%llu:%llu qcap=%zu tend=%llu rseed=0x%llx skew0=%lld skew1=%lld",
-                (int)r.chance(0.3), (int)r.coin(), stackfill, udp, fd, tscf, count, (int)r.chance(0.3), (int)(!udp && r.chance(0.4)), read0, (unsigned long long)clkgran, sched_str(r).c_str(), (unsigned long long)lat_lo, (unsigned long long)lat_hi,
+    int port = r.chance(0.3) ? (int)(int[]){1025, 17221, 20000, 40000, 65535}[r.below(5)] : 0;
+    o.line(strf("cfg scen=tunnel port=%d longnames=%d argorder=%d stackfill=%d udp=%d fd=%d tscf=%d count=%d o0=%d ethpad=%d read0=%.2f clkgran=%llu sched=%s lat=%llu:%llu cost=%llu:%llu qcap=%zu tend=%llu rseed=0x%llx skew0=%lld skew1=%lld",
+                port, (int)r.chance(0.3), (int)r.coin(), stackfill, udp, fd, tscf, count, (int)r.chance(0.3), (int)(!udp && r.chance(0.4)), read0, (unsigned long long)clkgran, sched_str(r).c_str(), (unsigned long long)lat_lo, (unsigned long long)lat_hi,
                 (unsigned long long)r.range(50, 500), (unsigned long long)r.range(500, 20000), qcap, (unsigned long long)tend,
                 (unsigned long long)r.next(), (long long)big_skew(r), (long long)big_skew(r)));
     for (auto &f : frames) o.line(f);
@@ -301,6 +302,7 @@ static Built build_can(Rng &r, bool udp, bool tscf, bool fd, uint64_t now_ns) {
 static Built build_hello(Rng &r, bool udp, bool tscf, uint64_t now_ns) {
     Built b;
     size_t n = r.chance(0.5) ? r.range(0, 40) : r.range(0, 1480);
+    if (r.chance(0.04)) n = r.range(1480, 8900);  // jumbo frame
     if (r.chance(0.15)) n = (size_t[]){84, 88, 91, 92, 93, 96, 1500 - 24 - 8, 1500 - 12 - 8, 1500 - 28 - 8, 1500 - 16 - 8}[r.below(10)];  // around MAX_MSG_SIZE and the full buffer
     std::vector<uint8_t> pl = rnd_bytes(r, n, r.chance(0.6) ? (r.coin() ? 1 : 3) : -1);
     if (r.chance(0.5) && !pl.empty()) pl.back() = 0;  // half of them NUL-terminated
@@ -326,6 +328,7 @@ static Built build_vss(Rng &r, bool udp, bool tscf, uint64_t now_ns) {
     if (am == 1) { auto x = rnd_bytes(r, 4); path = x; }
     else {
         size_t pl = r.chance(0.6) ? r.range(0, 40) : r.range(0, 1400);
+        if (!fill && r.chance(0.04)) pl = r.range(1400, 8900);  // jumbo frame: a datagram larger than the 1500 bytes the listeners receive into
         if (fill) {
             size_t hdrs = (udp ? 4 : 0) + (tscf ? wire::TSCF_HDR : wire::NTSCF_HDR) + wire::ACF_VSS_HDR + 2;
             size_t val = (dt == 0 || dt == 1 || dt == 8) ? 1 : (dt == 2 || dt == 3) ? 2 : (dt == 4 || dt == 5 || dt == 9) ? 4 : (dt == 6 || dt == 7 || dt == 0xA) ? 8 : 2;
